@@ -33,6 +33,11 @@ func report(rt *rapid.T, rec *core.Recorder, f *Fail, c any) {
 	if f == nil {
 		return
 	}
+	if f.KnownID == "" {
+		if h, ok := c.(interface{ rtPkg() *model.Package }); ok {
+			f.KnownID = rtKnown(f, h.rtPkg())
+		}
+	}
 	if f.KnownID != "" && core.Open(f.KnownID) {
 		rec.Known(f.KnownID, knownWhat(f.KnownID))
 		return
